@@ -283,5 +283,15 @@ pub fn exact_maps() -> Vec<ExactMap> {
         ExactMap { name: "shear_y3", m: [1.0, 0.0, 0.0, -3.0, 1.0, 0.0], axis: false },
         ExactMap { name: "shear_both", m: [2.0, 1.0, 3.0, 1.0, 1.0, -2.0], axis: false },
         ExactMap { name: "aniso", m: [4.0, 0.0, 0.0, 0.0, 0.5, 1.0], axis: true },
+        // unimodular double shear with M = 2^16 + 1: lattice edges become long, nearly parallel vectors
+        // whose cross products need more than 53 bits (coordinates stay integers < 2^37, hence exact)
+        ExactMap { name: "shear_huge", m: [1.0, 65537.0, 0.0, 65537.0, 1.0 + 65537.0 * 65537.0, 0.0], axis: false },
     ]
 }
+
+/// any of the ten concrete types as a `Geometry` (geo has no `From<GeometryCollection>`)
+pub trait ToGeom {
+    fn to_geom(self) -> Geometry<f64>;
+}
+macro_rules! to_geom { ($($t:ident),*) => { $(impl ToGeom for $t<f64> { fn to_geom(self) -> Geometry<f64> { Geometry::$t(self) } })* } }
+to_geom!(Point, Line, LineString, Polygon, MultiPoint, MultiLineString, MultiPolygon, Rect, Triangle, GeometryCollection);
